@@ -132,10 +132,12 @@ def run(P: Program, R: Report, tier: str) -> None:
                         edges_var = norm(lp.target.elts[1])
                         groups = norm(lp.iter.func.value)
                         # groups[(get_time(u), get_time(v))].append((u, v))
-                        fills = [x for x in ast.walk(m.node) if isinstance(x, ast.Call) and call_name(x) == "append" and isinstance(x.func.value, ast.Subscript) and norm(x.func.value.value) == groups]
+                        fills = [x for x in ast.walk(m.node) if isinstance(x, ast.Call) and call_name(x) == "append" and (
+                            (isinstance(x.func.value, ast.Subscript) and norm(x.func.value.value) == groups)
+                            or (isinstance(x.func.value, ast.Call) and call_name(x.func.value) == "setdefault" and norm(x.func.value.func.value) == groups))]
                         good_fill = False
                         for fl in fills:
-                            key = fl.func.value.slice
+                            key = fl.func.value.slice if isinstance(fl.func.value, ast.Subscript) else fl.func.value.args[0]
                             if isinstance(key, ast.Name):
                                 key = single_def(m, key.id) or key
                             item = fl.args[0]
